@@ -176,8 +176,26 @@ def do_case(ctx, inp):
                                                                        "solutions": [s1, s2]}); return
 
 
+def big_model(rng, kind):
+    lf = lambda n: {"c": "str", "id": n}
+    if kind == "many-anys":
+        return {"c": "All", "args": [{"c": "Any", "args": [lf("i%d" % (2 * k)), lf("i%d" % (2 * k + 1))]} for k in range(420)]}
+    rules = []
+    for k in range(rng.randint(60, 90)):
+        its = ["a%d_%d" % (k, j) for j in range(3)]
+        r = rng.random()
+        if r < 0.5: rules.append({"c": "ccXor", "id": "X%d" % k, "args": [lf(x) for x in its], "default": [its[0]]})
+        else: rules.append({"c": "Imply", "id": "I%d" % k, "cond": {"c": "All", "args": [lf(its[0]), lf("a%d_0" % max(k - 1, 0))]},
+                            "cons": {"c": "Any", "args": [lf(its[1]), lf(its[2])]}})
+    return {"c": "Stingy", "id": "cfg", "args": rules}
+
+
 def run(ctx):
     rng = ctx.rng
+    for kind in ("many-rules", "many-anys"):
+        # models whose packed form runs to tens of kilobytes (a real product catalogue): packing is not a matter of size
+        ctx.tags["large-model-" + kind] += 1
+        do_case(ctx, {"ast": big_model(rng, kind), "prio": {}})
     n = (300 if ctx.quick else 2500) * (3 if ctx.search else 1)
     for _ in range(n):
         if rng.random() < 0.5:
